@@ -232,7 +232,12 @@ def _vjp(yout, yparam, v, create_graph):
 def connect_graph(out, params):
     # just to have a dummy graph, in case there is a parameter that
     # is disconnected in calculating df/dy
-    return out + sum([p.reshape(-1)[0] * 0 for p in params])
+    # (a zero that depends on the parameter whatever its values: 0 * inf
+    # would be nan; parameters that are not differentiable need no connection)
+    for p in params:
+        if isinstance(p, torch.Tensor) and p.requires_grad:
+            out = out + p.reshape(-1)[:0].sum()
+    return out
 
 def _setup_idxs(idxs, params):
     if idxs is None:
